@@ -395,11 +395,28 @@ let run_case (oc : out_channel) (c : case) : unit =
   let setg i g = (!graphs).(i) <- g in
   let script : (nat * (n, z, n) op list) list ref = ref [] in
   let take_script () = let s = List.rev !script in script := []; s in
-  List.iteri (fun si st ->
+  (* extra script: container operations, nested searches/loops, comparisons, sizeof, executed from inside the closure AFTER the
+     scripted node operations of the same invocation index. The closure handed to the model's machines is then an OCaml
+     wrapper around the model's mk_cb that runs these steps on the heap mk_cb returns (the theorems of C20 are stated for
+     arbitrary closures, so the wrapper is one more instance). *)
+  let xscript : (int * string array) list ref = ref [] in
+  let take_xscript () = let s = List.rev !xscript in xscript := []; s in
+  let underscore (s : string) = String.map (fun ch -> if ch = ' ' then '_' else ch) s in
+  let rec wrap_cb xs xlog cb =
+    if xs = [] then cb else
+    (fun (c : n cbst) (hh : hp) (e : n edge) ->
+      let k = int_of_nat c.c_count in
+      let ((c1, h1), ok) = cb c hh e in
+      h := h1;
+      List.iter (fun (i, stx) -> if i = k then xlog := underscore (exec stx) :: !xlog) xs;
+      ((c1, !h), ok))
+  and xtail xs xlog = if xs = [] then "" else " | xlog" ^ String.concat "" (List.map (fun l -> " " ^ l) (List.rev !xlog))
+  and exec (st : string array) : string =
     let st = if String.length st.(0) > 5 && String.sub st.(0) 0 5 = "only:" then Array.sub st 1 (Array.length st - 1) else st in
     let (st, order) = split_at_order st in
-    let obs =
       match st.(0) with
+      | "scx" -> xscript := (ios st.(1), Array.sub st 2 (Array.length st - 2)) :: !xscript; "ok"
+      | "size" -> "ok"
       | "gnew" -> graphs := Array.append !graphs [| [] |]; "ok"
       | "gins" ->
           let gi = ios st.(1) in
@@ -473,7 +490,8 @@ let run_case (oc : out_channel) (c : case) : unit =
                let a = ((u, t1), e1) and b = ((v, t2), e2) in
                let eq = if directed then edge_eqb_d keqb !h a b else edge_eqb_u N.compare a b in
                let c = edge_cmp N.compare a b in
-               Printf.sprintf "ecmp eq=%d cmp=%s pcmp=Some(%s)" (b2i eq) (cmp_name c) (cmp_name c)
+               Printf.sprintf "ecmp eq=%d cmp=%s pcmp=Some(%s) rev=%s rr=%s" (b2i eq) (cmp_name c) (cmp_name c)
+                 (fmt_edge !h t1 u e1) (fmt_edge !h u t1 e1)
            | _, _ -> "none")
       | "thr" -> "ok"
       | "sched" ->
@@ -538,10 +556,12 @@ let run_case (oc : out_channel) (c : case) : unit =
       | "loop" ->
           let d = (match st.(1) with "out" -> DOut | "in" -> DIn | "adj" -> DAdj | _ -> if directed then DOut else DAdj) in
           let sc = take_script () in
-          let cb = mk_cb step false (fun _ _ _ -> true) sc in
+          let xs = take_xscript () in
+          let xlog = ref [] in
+          let cb = wrap_cb xs xlog (mk_cb step false (fun _ _ _ -> true) sc) in
           let ((c, h1), ok) = edge_loop cb big_fuel d cb0 !h (nat_of_int (ios st.(2))) O in
           h := h1;
-          if ok then "r loop" ^ tail !h c true (sc <> []) else "fuel"
+          if ok then "r loop" ^ tail !h c true (sc <> []) ^ xtail xs xlog else "fuel"
       | "srch" ->
           let algo = st.(1) and what = st.(2) and root = nat_of_int (ios st.(3)) in
           let tr = (st.(4) = "1") in
@@ -549,9 +569,11 @@ let run_case (oc : out_channel) (c : case) : unit =
           let d = if not directed then DAdj else if tr then DIn else DOut in
           let (is_filter, show, pred) = parse_method st 6 in
           let sc = take_script () in
-          let cb = mk_cb step is_filter pred sc in
+          let xs = take_xscript () in
+          let xlog = ref [] in
+          let cb = wrap_cb xs xlog (mk_cb step is_filter pred sc) in
           let fin (stt : (n, z, n, n cbst) sst) (res : string) =
-            h := stt.s_heap; res ^ tail !h stt.s_cb show (sc <> []) in
+            h := stt.s_heap; res ^ tail !h stt.s_cb show (sc <> []) ^ xtail xs xlog in
           let sres (stt, r) =
             (match r with
              | RNone -> fin stt "r none"
@@ -583,7 +605,7 @@ let run_case (oc : out_channel) (c : case) : unit =
                 | _ -> "bad-what")
            | _ -> "bad-algo")
       | other -> "unknown-step " ^ other in
-    Printf.fprintf oc "%d %s\n" si obs) c.steps
+  List.iteri (fun si st -> let obs = exec st in Printf.fprintf oc "%d %s\n" si obs) c.steps
 
 
 
